@@ -162,6 +162,8 @@ pub struct Ledger {
     pub long_only: bool,
     /// sum of the absolute values of everything that ever moved cash (scale for float tolerance)
     pub gross: f64,
+    /// per symbol: sum of the absolute quantities of every accepted order (scale for float tolerance)
+    pub qty_gross: BTreeMap<String, f64>,
 }
 
 fn is_whole(x: f64) -> bool {
@@ -211,6 +213,7 @@ impl Ledger {
         };
         let p = self.pending.get(&o.symbol).copied().unwrap_or(0.0) + signed;
         self.pending.insert(o.symbol.clone(), p);
+        *self.qty_gross.entry(o.symbol.clone()).or_insert(0.0) += o.shares.abs();
         if !is_whole(o.shares) {
             self.whole_shares = false;
         }
@@ -375,6 +378,35 @@ impl<'a> Sim<'a> {
         out
     }
 
+    /// C04 / C05 speak of the trades "the exchange has executed", the ledger is fed by what the tick
+    /// responses delivered: the two must be the same list (the exchange's own trade log is the reference).
+    pub fn executions_delivered(&mut self, s0: &VerifSnapshot, s1: &VerifSnapshot, out: &OpOutcome) {
+        if s1.trade_log.len() < s0.trade_log.len() {
+            return;
+        }
+        let executed = &s1.trade_log[s0.trade_log.len()..];
+        let json = self.json;
+        let same = |a: &Trade, b: &Trade| {
+            a.symbol == b.symbol
+                && a.date == b.date
+                && std::mem::discriminant(&a.typ) == std::mem::discriminant(&b.typ)
+                && if json { close(a.value, b.value, 1e-12) && close(a.quantity, b.quantity, 1e-12) } else { a.value == b.value && a.quantity == b.quantity }
+        };
+        let ok = executed.len() == out.tick_trades.len() && executed.iter().zip(out.tick_trades.iter()).all(|(a, b)| same(a, b));
+        if !executed.is_empty() && executed.windows(2).any(|w| same(&w[0], &w[1])) {
+            self.ctx.bump("probe_equal_adjacent_executions_in_one_tick");
+        }
+        if !ok {
+            let msg = format!(
+                "the exchange executed {} trades for this backtest on this tick ([{}]) but the tick response delivered {} ([{}])",
+                executed.len(), executed.iter().map(crate::e1u_model::fmt_trade).collect::<Vec<_>>().join(","),
+                out.tick_trades.len(), out.tick_trades.iter().map(crate::e1u_model::fmt_trade).collect::<Vec<_>>().join(",")
+            );
+            self.ctx.fail("C04", "executions-delivered", "check", msg.clone());
+            self.ctx.fail("C05", "executions-delivered", "check", msg);
+        }
+    }
+
     pub fn snapshot(&self) -> VerifSnapshot {
         self.sh
             .srv
@@ -457,6 +489,27 @@ impl<'a> Sim<'a> {
                 rule!(
                     self.ctx, "C05", "pending-zero-entry", what, o.pending.len() == self.led.pending.len() || !maps_close(&o.pending, &self.led.pending, false),
                     "after {what}: pending exposure {{{}}} keeps entries that should be gone: expected {{{}}}", fmt_map(&o.pending), fmt_map(&self.led.pending)
+                );
+            }
+            // "accepted but not yet filled orders" read where they live: the exchange's buffer and book of
+            // this broker's backtest (nobody else trades on it, the broker never cancels)
+            if self.led.trades.len() < 5000 {
+                let snap = self.snapshot();
+                let mut outstanding: BTreeMap<String, f64> = BTreeMap::new();
+                for ord in snap.book.iter().chain(snap.buffer.iter()) {
+                    let sign = if Typ::from_sut(ord.order_type).is_buy() { 1.0 } else { -1.0 };
+                    *outstanding.entry(ord.symbol.clone()).or_insert(0.0) += sign * ord.shares;
+                }
+                outstanding.retain(|_, v| *v != 0.0);
+                // the broker's pending is a running float sum: tolerance relative to everything ever accepted
+                let keys: std::collections::BTreeSet<&String> = o.pending.keys().chain(outstanding.keys()).collect();
+                let agree = keys.iter().all(|k| {
+                    let (a, b) = (o.pending.get(*k).copied().unwrap_or(0.0), outstanding.get(*k).copied().unwrap_or(0.0));
+                    (a - b).abs() <= 1e-6 + 1e-9 * self.led.qty_gross.get(*k).copied().unwrap_or(0.0)
+                });
+                rule!(
+                    self.ctx, "C05", "pending-vs-outstanding", what, agree,
+                    "after {what}: pending exposure {{{}}} but the orders of this broker still waiting on the exchange (buffer + book) add up to {{{}}}", fmt_map(&o.pending), fmt_map(&outstanding)
                 );
             }
             let mut sum = o.holdings.clone();
@@ -1100,7 +1153,7 @@ impl<'a> Sim<'a> {
         self.abstract_state(&o1);
     }
 
-    fn do_check(&mut self, o0: &Obs, _s0: &VerifSnapshot) {
+    fn do_check(&mut self, o0: &Obs, s0: &VerifSnapshot) {
         let whole_long_before = o0.holdings.values().all(|v| *v >= 0.0);
         block_on(self.brkr.check());
         let out = self.absorb_wire();
@@ -1109,6 +1162,7 @@ impl<'a> Sim<'a> {
         if self.non_finite(&o1) {
             return;
         }
+        self.executions_delivered(s0, &s1, &out);
         ev!(
             self.ctx, "check -> trades={} arrivals={} cash={:?} failed={} clock={:?} holdings={{{}}} pending={{{}}} liq={:?}",
             out.tick_trades.len(), out.arrivals.len(), o1.cash, o1.failed, self.server_clock(), fmt_map(&o1.holdings), fmt_map(&o1.pending), o1.liq
